@@ -213,7 +213,7 @@ theorem base_err {cls : Cls} {vtName vt : String} {req : List String} (T : Table
 
 theorem lookup_vt (vt : String) (name : Coded) (rel : Option String) (e : Attrs) :
     ([("ValueType", AVal.str vt), ("ConceptNameCodeSequence", .code name)] ++ relPart rel ++ e).lookup "ValueType" = some (.str vt) := by
-  simp [List.lookup]
+  simp
 
 theorem lookup_name (vt : String) (name : Coded) (rel : Option String) (e : Attrs) :
     ([("ValueType", AVal.str vt), ("ConceptNameCodeSequence", .code name)] ++ relPart rel ++ e).lookup "ConceptNameCodeSequence"
